@@ -118,6 +118,8 @@ class Interp:
         self.solver_time = 0.0
         self.statics = {}     # (file, func, name) -> Cell : function-local statics are globals
         self.globals = {}     # (file, name) -> Cell
+        self.const_axioms = {}
+        self.domain_events = []
 
     # ---------------------------------------------------------------- counting must-fire rules
     def fire(self, rule):
@@ -137,7 +139,17 @@ class Interp:
             if key in self.sym.axiom_keys:
                 return
             self.sym.axiom_keys.add(key)
+            if key[0] == 'const':
+                # facts about named constants hold on every path (file-scope constants are evaluated once and cached)
+                self.const_axioms[key] = fact
         self.sym.axioms.append(fact)
+
+    def new_sym(self):
+        s = Sym()
+        for k, f in self.const_axioms.items():
+            s.axiom_keys.add(k)
+            s.axioms.append(f)
+        return s
 
     def side(self, cond, desc):
         """record a side obligation (must hold under the current path condition and guards)"""
@@ -248,6 +260,8 @@ class Interp:
             return x.map(self.m_sqrt)
         if self.mode == 'float':
             x = float(x)
+            if not x >= 0 and x == x:
+                self.domain_events.append(('sqrt: argument >= 0 at %s:%d' % (self.cur_file(), self.cur_line), x))
             return math.sqrt(x) if x >= 0 else math.nan
         if not is_sym(x):
             x = Fraction(x)
@@ -282,6 +296,7 @@ class Interp:
             try:
                 return pyf(float(x))
             except (ValueError, OverflowError):
+                self.domain_events.append(('%s: argument in domain at %s:%d' % (name, self.cur_file(), self.cur_line), float(x)))
                 return math.nan
         t = z3.simplify(z3real(x))
         if domain is not None:
@@ -353,7 +368,7 @@ class Interp:
             if len(results) >= max_paths:
                 raise EvalError('too many paths')
             self.prefix = self.pending.pop()
-            self.sym = Sym()
+            self.sym = self.new_sym()
             self.frames = []
             old = DivHook.hook
             DivHook.hook = self._div_hook
@@ -371,7 +386,7 @@ class Interp:
 
     def run_single(self, thunk):
         """concrete execution (float mode or fully concrete sym mode)"""
-        self.sym = Sym()
+        self.sym = self.new_sym()
         self.prefix = []
         self.pending = []
         self.frames = []
@@ -640,6 +655,8 @@ class Interp:
             return Mat.fill(r, c, Cx(z, z) if cplx else z, 'matrix' if n == 'Eigen::Matrix' else 'array', cplx)
         if n in ('std::string',):
             return ''
+        if n not in self.w.classes and n.split('::')[-1] in self.w.classes:
+            n = n.split('::')[-1]
         if n in self.w.classes:
             return self.new_object(n, symbolic, path)
         if n in self.w.enums or n.split('::')[-1] in self.w.enums:
@@ -692,6 +709,11 @@ class Interp:
             return tuple(args)
         if n == 'std::string':
             return ''.join(str(a) for a in args) if args else ''
+        if n not in self.w.classes and n.split('::')[-1] in self.w.classes:
+            n = n.split('::')[-1]
+        if n in self.w.classes and self.w.is_subclass(n, 'Error'):
+            self.fire('exception-object')
+            return Obj(n, {'msg': args[0] if args else ''})
         if n in self.w.classes:
             cd = self.w.classes[n]
             ctors = self.w.funcs.get(n + '::' + n, [])
@@ -1096,7 +1118,7 @@ class Interp:
             if len(args) == 1 and not (n in self.w.classes):
                 return self.convert(deep_copy(args[0]), ty) if not isinstance(args[0], Mat) or n in ('Eigen::Matrix', 'Eigen::Array') else deep_copy(args[0])
             return self.construct(ty, args, d.braced)
-        if n in self.w.classes:
+        if n in self.w.classes or n.split('::')[-1] in self.w.classes:
             return self.construct(ty, [], False)
         return self.zero_of_type(ty)
 
@@ -1457,6 +1479,8 @@ class Interp:
             if e.name in o.f:
                 return o.f[e.name]
             return BoundMethod(o, e.name)
+        if isinstance(o, tuple) and e.name in ('first', 'second'):
+            return o[0 if e.name == 'first' else 1]
         if isinstance(o, (Mat, Cx, str, Opaque, list, tuple, Stream)):
             return BoundMethod(o, e.name)
         raise Unsupported('member %s of %r' % (e.name, o))
